@@ -174,42 +174,36 @@ def gu_op(rng, cls, regs, dagger=False):
         c, s, phi = circle(rng)
         r = rng.choice([F(1, 2), F(1, 4), F(-1, 2), F(1), F(3, 4), F(0), F(2)])
         op["pars"] = [float(r), phi]
-        op["ex"] = dict(op="disp", dx=rat(2 * r * c), dp=rat(2 * r * s))
+        op["ex"] = dict(op="gate", name="D", a=[rat(r * c), rat(r * s)])
     elif cls == "Rgate":
         c, s, th = circle(rng)
-        g = [[c, -s], [s, c]]
         op["pars"] = [th]
-        op["ex"] = dict(op="blk1", g=jmat(g), gi=jmat(rinv(g)))
+        op["ex"] = dict(op="gate", name="R", a=[rat(c), rat(s)])
     elif cls == "Sgate":
         c, s, phi = circle(rng)
         ch, sh, r = hyper(rng)
-        g = [[ch - c * sh, -s * sh], [-s * sh, ch + c * sh]]
         op["pars"] = [r, phi]
-        op["ex"] = dict(op="blk1", g=jmat(g), gi=jmat(rinv(g)))
+        op["ex"] = dict(op="gate", name="S", a=[rat(c), rat(s), rat(ch), rat(sh)])
     elif cls == "S2gate":
         c, s, phi = circle(rng)
         ch, sh, r = hyper(rng)
-        g = [[ch, c * sh, F(0), s * sh], [c * sh, ch, s * sh, F(0)], [F(0), s * sh, ch, -c * sh], [s * sh, F(0), -c * sh, ch]]
         op["pars"] = [r, phi]
-        op["ex"] = dict(op="blk2", g=jmat(g), gi=jmat(rinv(g)))
+        op["ex"] = dict(op="gate", name="S2", a=[rat(c), rat(s), rat(ch), rat(sh)])
     elif cls == "BSgate":
         ct, st, th = circle(rng)
         c, s, phi = circle(rng)
-        g = interf_symp(bs_unitary(ct, st, c, s))
         op["pars"] = [th, phi]
-        op["ex"] = dict(op="blk2", g=jmat(g), gi=jmat(rinv(g)))
+        op["ex"] = dict(op="gate", name="BS", a=[rat(ct), rat(st), rat(c), rat(s)])
     elif cls == "MZgate":
         cv, sv, pin = circle(rng)
         cu, su, pex = circle(rng)
-        g = interf_symp(mz_unitary((cv, sv), (cu, su)))
         op["pars"] = [pin, pex]
-        op["ex"] = dict(op="blk2", g=jmat(g), gi=jmat(rinv(g)))
+        op["ex"] = dict(op="gate", name="MZ", a=[rat(F(1, 2)), rat(cv), rat(sv), rat(cu), rat(su)])
     elif cls == "sMZgate":
         cs_, ss_, sig = circle(rng)
         cd, sd, dl = circle(rng)
-        g = interf_symp(smz_unitary((cs_, ss_), cd, sd))
         op["pars"] = [sig + dl, sig - dl]
-        op["ex"] = dict(op="blk2", g=jmat(g), gi=jmat(rinv(g)))
+        op["ex"] = dict(op="gate", name="sMZ", a=[rat(cs_), rat(ss_), rat(cd), rat(sd)])
     elif cls == "Interferometer":
         k = len(regs)
         U = rand_unitary_exact(rng, k)
@@ -235,30 +229,27 @@ def passive_op(rng, cls, regs, dagger=False):
     if cls == "Rgate":
         c, s, th = circle(rng)
         op["pars"] = [th]
-        op["ex"] = dict(op="one", g=jcx((c, s)), gi=jcx((c, -s)))
+        op["ex"] = dict(op="gate", name="R", a=[rat(c), rat(s)])
     elif cls == "LossChannel":
         q = rng.choice([F(0), F(1, 2), F(3, 4), F(1), F(2, 3), F(1, 4)])
         op["pars"] = [float(q * q)]
         op["dagger"] = False
-        op["ex"] = dict(op="one", g=jcx((q, F(0))), gi=jcx((q, F(0))))
+        op["ex"] = dict(op="gate", name="Loss", a=[rat(q)])
     elif cls == "BSgate":
         ct, st, th = circle(rng)
         c, s, phi = circle(rng)
-        U = bs_unitary(ct, st, c, s)
         op["pars"] = [th, phi]
-        op["ex"] = dict(op="two", g=jcmat(U), gi=jcmat(cdag(U)))
+        op["ex"] = dict(op="gate", name="BS", a=[rat(ct), rat(st), rat(c), rat(s)])
     elif cls == "MZgate":
         cv, sv, pin = circle(rng)
         cu, su, pex = circle(rng)
-        U = mz_unitary((cv, sv), (cu, su))
         op["pars"] = [pin, pex]
-        op["ex"] = dict(op="two", g=jcmat(U), gi=jcmat(cdag(U)))
+        op["ex"] = dict(op="gate", name="MZ", a=[rat(F(1, 2)), rat(cv), rat(sv), rat(cu), rat(su)])
     elif cls == "sMZgate":
         cs_, ss_, sig = circle(rng)
         cd, sd, dl = circle(rng)
-        U = smz_unitary((cs_, ss_), cd, sd)
         op["pars"] = [sig + dl, sig - dl]
-        op["ex"] = dict(op="two", g=jcmat(U), gi=jcmat(cdag(U)))
+        op["ex"] = dict(op="gate", name="sMZ", a=[rat(cs_), rat(ss_), rat(cd), rat(sd)])
     elif cls in ("Interferometer", "PassiveChannel"):
         k = len(regs)
         U = rand_unitary_exact(rng, k)
